@@ -139,19 +139,15 @@ def gen_tr(workdir, name, cfg, tracefile):
     return mod
 
 
-def gen_mon(workdir, name, cfg, tracefile, invariants, properties=()):
+def gen_mon(workdir, name, cfg, tracefile, predicates):
     t = cfg["tr"]
+    c = consts(cfg, "tr")
     d = {"D": str(t["D"]), "F": str(t["F"]), "TraceFile": q(tracefile),
-         "NatMap": consts(cfg, "tr")["NatMap"],
-         "Reach": consts(cfg, "tr")["Reach"],
+         "NatMap": c["NatMap"], "Reach": c["Reach"],
          "LocA": "{" + ", ".join(map(q, cfg["loc"]["A"] + [cfg["nat"][l] for l in cfg["loc"]["A"] if l in cfg["nat"]])) + "}",
-         "Lite": consts(cfg, "tr")["Lite"], "CheckPrio": consts(cfg, "tr")["CheckPrio"],
-         "MaxReq": str(cfg["maxReq"])}
-    lines = ["SPECIFICATION Spec", "POSTCONDITION Done", "CHECK_DEADLOCK FALSE"]
-    for i in invariants:
-        lines.append("INVARIANT %s" % i)
-    for p in properties:
-        lines.append("PROPERTY %s" % p)
+         "Lite": c["Lite"], "CheckPrio": c["CheckPrio"], "MaxReq": str(cfg["maxReq"]),
+         "Check": "{" + ", ".join(map(q, predicates)) + "}"}
+    lines = ["SPECIFICATION Spec", "INVARIANT Report", "POSTCONDITION Done", "CHECK_DEADLOCK FALSE"]
     mod = "MON_" + name
     write_module(workdir, mod, "IceSessionMon", d, lines)
     return mod
